@@ -310,8 +310,8 @@ def _run(case, scratch):
             if len(new) != 1:
                 fail("save-did-not-write-exactly-one-file", new)
             else:
-                if validating and warns and not any("unresolved issues" in str(w.message) or "Validation found" in str(w.message)
-                                                    for w in caught):
+                # how the warnings are worded is the library's business: something must have been reported
+                if validating and warns and not caught:
                     fail("warnings-not-reported", [str(w.message)[:80] for w in caught])
                 if fmt in ("XML", "JSON", "YAML"):
                     try:
